@@ -2,11 +2,11 @@
 # usage: [RESULTS=dir] [MUTROOT=dir] [SUB=out|out2] [TAG=suffix] tools/mutant_batch.sh <PROP> [extra props comma separated]
 # evaluates $MUTROOT/<PROP>/$SUB/m*/ one after the other with tools/try_mutant.py; results in $RESULTS/<PROP><TAG>_m<k>.json
 P=$1; EXTRA=${2:+,$2}
-RESULTS=${RESULTS:-/tmp/mt_results}; MUTROOT=${MUTROOT:-/tmp/mut}; SUB=${SUB:-out}; TAG=${TAG:-}
+RESULTS=${RESULTS:-/tmp/mt_results}; MUTROOT=${MUTROOT:-/tmp/mut}; SUB=${SUB:-out}; TAG=${TAG:-}; SEED=${SEED:-1}; SKIP=${SKIP:-}
 mkdir -p $RESULTS
 for d in $MUTROOT/$P/$SUB/m*/; do
   k=$(basename $d)
   [ -f $d/patch.diff ] || continue
-  python3 /verif/tools/try_mutant.py $d --props $P$EXTRA --name ${P}${TAG}_$k > $RESULTS/${P}${TAG}_$k.json 2>&1
+  python3 /verif/tools/try_mutant.py $d --props $P$EXTRA --seed $SEED $SKIP --name ${P}${TAG}_${k}_s$SEED > $RESULTS/${P}${TAG}_$k.json 2>&1
 done
 echo "batch $P done"
